@@ -34,7 +34,7 @@ func c13Suppressed(p *Prog, cons string) (string, bool) {
 
 func c13(c *Ctx) {
 	p, r := c.K1(), c.R
-	r.Expl = "Structural clauses behind 'configuration mistakes are rejected up front and leave nothing patched': (R1) inside every function of the apply chain each call that can reach a text write is dominated by the err==nil continuation of every earlier fallible in-module call, signature checking lies on every static path from the checked entry points to the patch installer, and proxy.Interface returns no error after it mutated anything; (R2) no error result of an in-module call is dropped in the mocking packages; (R3) every erro type with Cause() is Traceable so the chain can be walked; (R4) every exported erro error type is actually constructed by a constructor; (R5) the count/size reject conditions compare exactly the quantities the property names. That every mistake class is detected for every value is not decided."
+	r.Expl = "Structural clauses behind 'configuration mistakes are rejected up front and leave nothing patched': (R1) inside every function of the apply chain each call that can reach a text write is dominated by the err==nil continuation of every earlier fallible in-module call, signature checking lies on every static path from the checked entry points to the patch installer, and proxy.Interface returns no error after it mutated anything; (R2) no error result of an in-module call is dropped in the mocking packages; (R3) every erro type with Cause() is Traceable so the chain can be walked; (R4) every exported erro error type is actually constructed by a constructor; (R5) the count/size reject conditions compare exactly the quantities the property names. That every mistake class is detected for every value is not decided. (R7) no validation test is left without a consequence; (R8) on the side of an error test where the error is nil it is not reported (inverted tests); (R9) for a variadic function the list converters refuse exactly the lists too short to cover the fixed parameters."
 	r.RuleText = "one obligation per (rule, call site / function / type)"
 	r.Floor("C13.R1", 5)
 	r.Floor("C13.R2", 20)
